@@ -1,0 +1,6 @@
+//go:build !verif
+// +build !verif
+
+package dsstate
+
+func verifHook(ev string, st *State) {}
